@@ -286,14 +286,24 @@ def built_models(world, prog, run_, out_idx):
 
 def strip_types(model):
     """The model without the (precision of the) reported types: nodes, names, initializers, opset imports, names of
-    inputs/outputs."""
+    inputs/outputs – in the main graph and in every subgraph."""
     import onnx
+
+    def strip_graph(g):
+        del g.value_info[:]
+        for vi in list(g.output) + list(g.input):
+            vi.ClearField("type")
+        for n in g.node:
+            for a in n.attribute:
+                if a.type == onnx.AttributeProto.GRAPH:
+                    strip_graph(a.g)
+                elif a.type == onnx.AttributeProto.GRAPHS:
+                    for sg in a.graphs:
+                        strip_graph(sg)
 
     m = onnx.ModelProto()
     m.CopyFrom(model)
-    del m.graph.value_info[:]
-    for vi in list(m.graph.output) + list(m.graph.input):
-        vi.ClearField("type")
+    strip_graph(m.graph)
     return m.SerializeToString(deterministic=True)
 
 
@@ -369,8 +379,9 @@ class Checker:
                         ck.check_step(prog, base, p)
                 else:
                     fr = run_program(self.world, prog, backend, plan, reuse=base, strict=strict)
+                    tainted = ck.is_tainted(base, fr)
                     for p in sorted(fr["executed"]):
-                        ck.check_step(prog, fr, p)
+                        ck.check_step(prog, fr, p, tainted)
                     if not strict:
                         ck.check_downstream(prog, base, fr)
         except Exception:  # noqa: BLE001
@@ -422,8 +433,23 @@ class Checker:
                               {"template": r["t"]})
 
     # -- per step oracles + correspondence case -----------------------------------------------------------
-    def check_step(self, prog, run_, p, fault_free=None):
+    def is_tainted(self, base, run_):
+        """some faulted step attached a value that differs from the fault-free one: a payload that conforms to the type but
+        carries other values – not detectable by spox, hence outside the theorem's hypothesis"""
+        for p in run_["plan"]:
+            rb, rc = base["recs"][p], run_["recs"][p]
+            if rc["outs"] is None or rb["outs"] is None:
+                continue
+            for vb, vc in zip(rb["outs"], rc["outs"]):
+                if vc._value is not None and (vb._value is None or not L.values_equal(vc._value, vb._value)):
+                    return True
+        return False
+
+    def check_step(self, prog, run_, p, tainted=False):
         r = run_["recs"][p]
+        if tainted and p not in run_["plan"] and r.get("exc") is not None:
+            self.n_tainted_skips = getattr(self, "n_tainted_skips", 0) + 1
+            return  # e.g. ONNX inference rejects a downstream node fed with the wrong (but well-typed) constant
         if r["skipped"] or p not in run_["executed"]:
             return
         self.n_exec += 1
@@ -507,17 +533,8 @@ class Checker:
     def check_downstream(self, prog, base, run_):
         """types under fault are equal or more permissive, values absent or identical (skipped below a fault whose
         payload conforms to the type but carries other values: that is not a detectable fault)."""
-        # the theorem's hypothesis: every faulted step ended with nothing attached (or exactly the fault-free values).
-        # A payload that conforms to the type but carries other values cannot be detected by spox; runs containing one
-        # are not subject to this oracle (conformance of what was attached is checked by check_step).
-        tainted = False
-        for p in run_["plan"]:
-            rb, rc = base["recs"][p], run_["recs"][p]
-            if rc["outs"] is None or rb["outs"] is None:
-                continue
-            for vb, vc in zip(rb["outs"], rc["outs"]):
-                if vc._value is not None and (vb._value is None or not L.values_equal(vc._value, vb._value)):
-                    tainted = True
+        # the theorem's hypothesis: every faulted step ended with nothing attached (or exactly the fault-free values)
+        tainted = self.is_tainted(base, run_)
         for i, (vb, vc) in enumerate(zip(base["env"], run_["env"])):
             if vb is None or vc is None or vb is vc:
                 continue
@@ -662,8 +679,9 @@ def run(run: Run) -> int:
                         ck.n_fault_runs += 1
                         for f in plan.values():
                             ck.bump("fault_kinds", f["kind"] + ":" + (f.get("stage") or f.get("struct") or f.get("names") or "payload"))
+                        tainted = ck.is_tainted(base, fr)
                         for p in range(len(prog["steps"])):
-                            ck.check_step(prog, fr, p)
+                            ck.check_step(prog, fr, p, tainted)
                         if not strict:
                             ck.check_downstream(prog, base, fr)
                             fault_runs.append(fr)
@@ -743,8 +761,9 @@ def replay(run: Run, case) -> int:
         else:
             base = run_program(world, prog, backend)
             fr = run_program(world, prog, backend, plan, reuse=base, strict=bool(d.get("strict")))
+            tainted = ck.is_tainted(base, fr)
             for p in range(len(prog["steps"])):
-                ck.check_step(prog, fr, p)
+                ck.check_step(prog, fr, p, tainted)
             ck.check_downstream(prog, base, fr)
             none = run_program(world, prog, "NONE", typing=False)
             ck.check_builds(prog, [none, base, fr], run.rng)
